@@ -19,10 +19,6 @@ use crate::{coq::*, out::Sink, recv::*, rng::Rng, Opts};
 // ---------------------------------------------------------------------------------------------
 // the direct host-level check
 
-fn roundtrip<T: serde::Serialize + serde::de::DeserializeOwned>(x: &T) -> T {
-    serde_json::from_str(&serde_json::to_string(x).expect("serialize")).expect("deserialize")
-}
-
 /// Host spans seen by a layer on the `Registry`: one record per `on_new_span` (the Registry recycles
 /// ids), with the number of `on_close` callbacks it received.
 #[derive(Default)]
@@ -95,6 +91,7 @@ pub fn registry_check(steps: &[Step]) -> RegistryCheck {
         let mut saved_guest = guest.clone();
         let mut released: std::collections::HashSet<usize> = Default::default();
         let mut drops = 0u32;
+        let mut restores = 0u32;
         for step in steps {
             match step {
                 Step::Recv(ev) => {
@@ -146,11 +143,15 @@ pub fn registry_check(steps: &[Step]) -> RegistryCheck {
                     let (spans, local) = receiver.persist();
                     res.restored &= tracing::Span::current().id() == before;
                     res.old_kept &= log.lock().unwrap().records == closed_before;
-                    let spans: PersistedSpans = roundtrip(&spans);
-                    md = roundtrip(&md);
+                    let (Ok(spans), Ok(md2)) = (json_roundtrip::<PersistedSpans>(&spans), json_roundtrip::<PersistedMetadata>(&md)) else {
+                        res.restored = false; // state this build cannot read back
+                        return;
+                    };
+                    md = md2;
                     saved_spans = spans.clone();
                     let local = if *keep { local } else { LocalSpans::default() };
-                    receiver = TracingEventReceiver::new(md.clone(), spans, local);
+                    restores += 1;
+                    receiver = restore_receiver(restores, md.clone(), spans, local);
                     if !*keep {
                         // the host spans of the alive guest spans are orphaned
                         guest.values_mut().for_each(|g| g.1 = None);
@@ -180,7 +181,8 @@ pub fn registry_check(steps: &[Step]) -> RegistryCheck {
                         }
                         res.born_closed &= log.records.iter().all(|&c| c <= 1);
                     }
-                    receiver = TracingEventReceiver::new(md.clone(), saved_spans.clone(), LocalSpans::default());
+                    restores += 1;
+                    receiver = restore_receiver(restores, md.clone(), saved_spans.clone(), LocalSpans::default());
                     guest = saved_guest.clone();
                     guest.values_mut().for_each(|g| g.1 = None);
                     saved_guest = guest.clone();
